@@ -899,3 +899,54 @@ impl<'a> AllVrpMetrics<'a> {
     }
 }
 
+
+
+//------------ Verification access -------------------------------------------
+
+#[cfg(routinator_verif)]
+impl ValidationReport {
+    /// Adds a publication point with the given payload.
+    ///
+    /// The payload is treated as if it had been found in validated objects
+    /// of a publication point under the TAL with index 0, so the metrics
+    /// passed to `into_snapshot` need to have at least one TAL.
+    pub fn verif_push_point(
+        &self,
+        tal: Arc<rpki::repository::tal::TalInfo>,
+        not_after: Time,
+        origins: impl IntoIterator<Item = RouteOrigin>,
+        router_keys: impl IntoIterator<Item = RouterKey>,
+        aspas: impl IntoIterator<Item = (Asn, Vec<Asn>)>,
+    ) {
+        let validity = Validity::new(Time::now(), not_after);
+        let info = Arc::new(PublishInfo {
+            tal,
+            uri: None,
+            roa_validity: validity,
+            chain_validity: validity,
+            point_stale: not_after,
+        });
+        let mut point = PubPoint::new(not_after, 0);
+        for origin in origins {
+            point.origins.push(PubRouteOrigin { origin, info: info.clone() });
+        }
+        for key in router_keys {
+            point.router_keys.push(PubRouterKey {
+                asns: AsBlocks::from_iter(
+                    Some(AsBlock::Id(key.asn.into()))
+                ),
+                key_id: key.key_identifier,
+                key_info: key.key_info,
+                info: info.clone(),
+            });
+        }
+        for (customer, providers) in aspas {
+            point.aspas.push(PubAspa {
+                customer,
+                providers: providers.into_iter().collect(),
+                info: info.clone()
+            });
+        }
+        self.pub_points.push(point);
+    }
+}
